@@ -32,6 +32,10 @@ T["C07"] = ("quadrature-oracle contract on the Black-Scholes price functions + m
             "Sampled elements of every bs_*_price call (all aliases; sweeps over moneyness, maturity, volatility, strike, running max, broadcast shapes, call/put; "
             "modules built from simulated derivatives) are compared with a 30-digit numerical integration of the payoff against the lognormal / running-maximum law, "
             "independent of the closed forms. One known finding (float32 accuracy of the lookback price with python-scalar arguments).", "4 C07")
+T["C09"] = ("metamorphic relation monitor over the real bs_*_price functions (vectorised pairs/triples)",
+            "Put-call parity, binary parity, intrinsic/spot bounds, monotonicity and convexity in the spot, monotonicity in volatility and time, lookback and "
+            "American-binary dominance, price 1 once the barrier is reached (incl. running max exactly on the strike) and continuity across M=K are checked "
+            "on every element of generated batches with slack equal to the rounding bound.", "4 C09")
 NA = {}
 
 def main():
